@@ -100,6 +100,15 @@ def fixed_cases(tier):
     import random
 
     out = []
+    # every edge kind on a side edge / a face edge of a loft that is mirrored (Operation.mirror also inverts the loft)
+    for i, kind in enumerate(EDGE_KINDS):
+        for j, slot in enumerate((("s", 1), ("b", 3), ("t", 1))):
+            rng = random.Random(f"fixed/loft/{kind}/{j}")
+            maps = [{"k": "mirror", "normal": list(geom.rand_unit(rng) * 1.7), "origin": geom.rand_vec(rng, -3, 3)}]
+            if j == 1:
+                maps.append({"k": "rotate", "angle": 0.8, "axis": list(geom.rand_unit(rng)), "origin": None})
+            out.append({"entity": {"group": "loft", "seed": 5 + 8 * (100 * i + j), "edge_kinds": [kind], "slots": [list(slot)]},
+                        "maps": maps, "via": ["method", "transform"][(i + j) % 2]})
     for kind in ("hemisphere",):
         for k in range(12 if tier == "quick" else 80):
             rng = random.Random(f"fixed/{kind}/{k}")
@@ -142,6 +151,8 @@ def make_entity(e, cb):
         bottom_edges, top_edges, side = [None] * 4, [None] * 4, {}
         slots = [("b", 0), ("t", 2), ("s", 1), ("b", 3), ("t", 1), ("s", 3)]
         rng.shuffle(slots)  # any kind can land on a bottom, top or side edge
+        if e.get("slots"):
+            slots = [tuple(x) for x in e["slots"]]
         for kind, (where, i) in zip(e["edge_kinds"], slots):
             if where == "b":
                 c1, c2 = i, (i + 1) % 4
